@@ -1,12 +1,12 @@
 import NetVerif.Driver.Util
 import NetVerif.Model.H3Conn
-import NetVerif.Model.QpackHuff
+import NetVerif.Model.QpackHuffman
 /-! Line-protocol driver for the HTTP/3 stream framing model (C35). State: the current stream and body reader. -/
 open NetVerif.Driver NetVerif.Model.H3Stream NetVerif.Model.Qpack NetVerif.Model.H3Conn
 
 namespace NetVerif.Driver.C35
 
-def H : Huff := NetVerif.Model.QpackHuff.huff
+def H : Huff := NetVerif.Model.QpackHuffman.huff
 
 structure DS where
   st : St
